@@ -46,6 +46,8 @@ type Stream struct {
 	Gen func(r *gen.R, idx int) []Case
 	// Corpus returns fixed cases that run first (past failures, lifted tables).
 	Corpus func() []Case
+	// Replay re-executes one request line on the implementation and returns its canonical reply.
+	Replay func(req string) string
 }
 
 // NoModel disables the model comparison (monitors only).
